@@ -32,7 +32,9 @@ SECRETS = (SECRET_I, SECRET_C, SECRET_M)
 # slots the interpreter itself uses on any object (isinstance -> __class__; dict/set membership and
 # `=` -> __hash__/__eq__; messages -> __str__/__repr__/__format__; conditions -> __bool__; ordering
 # -> __lt__...; sys.getsizeof -> __sizeof__) and the one attribute yaql reads on every value
-ALLOWED_INSTANCE_ATTRS = {"__class__", "__yaqlization__"}
+# __unwrapped__: yaql's own marker on the wrappers it builds for lambdas; Lambda.convert looks for it on any
+# callable value handed to a lambda parameter (it does not call the value unless the engine allows delegates)
+ALLOWED_INSTANCE_ATTRS = {"__class__", "__yaqlization__", "__unwrapped__"}
 ALLOWED_CLASS_ATTRS = {"__mro__", "__dict__", "__name__", "__qualname__", "__module__"}
 ALLOWED_PROTOCOL = {"__eq__", "__ne__", "__hash__", "__str__", "__repr__", "__bool__", "__format__", "__sizeof__",
                     "__lt__", "__le__", "__gt__", "__ge__", "__iter__", "__len__", "__contains__",
@@ -208,6 +210,8 @@ EXPR_ORDER = ["x_cur", "x_c", "x_kw_secret", "x_dot_secret", "x_cdot_secret", "x
 EXPR_CANARY = ["x_c", "x_cdot_secret", "x_ccall_secret", "x_map", "x_map2"]
 
 TEXT_ATTACKS = [
+    "call(coalesce, [$c], {})", "call(select, [[1, 2], $c], {})", "call(where, [[1], $c], {})", "call(orderBy, [[2, 1], $c], {})",
+    "call(switch, [$c], {})", "call(let, [], {x => $c}) -> $x()", "call(call, [coalesce, [$c], {}], {})",
     "$c.secret", "$c.secret()", "$c[secret]", "$c['secret']", "$c?.secret", "$c?.get_secret()", "$c.get_secret()",
     "$c._hidden", "$c.__class__()", "__class__($c)", "$c.__init__()", "$c.__getattribute__(secret)",
     "call(secret, [$c], {})", "call(get_secret, [$c], {})", "call(get_secret, [], {}, $c)", "$c.call(get_secret, [], {})",
@@ -477,6 +481,20 @@ class Sweeper(object):
                         seen.add(tuple(args))
                         for form in forms:
                             cases.append({"k": "fd", "i": idx, "form": form, "args": args})
+            # the same overload reached through call(name, [values...], {}[, receiver]): every argument is then a
+            # VALUE, also in the positions of lazy (lambda) parameters
+            for i in range(len(slots)):
+                for ck in ["c", "co", "ci"] + (["cl"] if "cl" in slots[i] else []):
+                    args = []
+                    for j, a in enumerate(slots):
+                        if j == i:
+                            args.append(ck)
+                        else:
+                            args.append(next((k for k in a if not k.startswith("x_") and k not in CANARY_KEYS), "i1"))
+                    if fd.is_function or name.startswith("#"):
+                        cases.append({"k": "fd", "i": idx, "form": "call", "args": args})
+                    if fd.is_method:
+                        cases.append({"k": "fd", "i": idx, "form": "callm", "args": args})
         for t in TEXT_ATTACKS:
             cases.append({"k": "text", "expr": t})
         cases += name_cases(deep)
@@ -497,7 +515,13 @@ class Sweeper(object):
 
         li, name, fd = self.lookup(case)
         nodes = [node(k) for k in case["args"]]
-        if case["form"] == "method" and nodes:
+        if case["form"] in ("call", "callm"):
+            recv = [nodes[0]] if case["form"] == "callm" and nodes else []
+            rest = nodes[1:] if recv else nodes
+            lst = expressions.ListExpression(*rest)
+            body = expressions.Function("call", expressions.Constant(name), lst, expressions.MapExpression(), *recv)
+            body.uses_receiver = False
+        elif case["form"] == "method" and nodes:
             body = expressions.BinaryOperator(".", nodes[0], expressions.Function(name, *nodes[1:]), None)
         else:
             body = expressions.Function(name, *nodes)
